@@ -1,4 +1,5 @@
 import TcheranVerif.Proofs.MagicCert
+import TcheranVerif.Proofs.Sweep.S22  -- only to bound how many parts are checked at once (≈8 GB each)
 /-! C07 sweep, part 26: bishop squares [32, 33, 34, 35, 36, 37, 38, 39, 40, 41, 42, 43, 44, 45, 46, 47, 48, 49, 50, 51, 52, 53, 54, 55, 56, 57, 58, 59, 60, 61, 62, 63] — decided by the kernel alone -/
 namespace Tcheran.Sweep
 
